@@ -542,6 +542,14 @@ fn flush(rep: &mut Report) {
     rep.hit_n("trailing_partial_frame", PARTIAL_FRAME.with(|c| c.replace(0)));
 }
 
+/// the interpreter-sized 32-bit stage promises none of the coverage counters of the full stages
+fn flush_lean(rep: &mut Report) {
+    rep.eval(EVALS.with(|c| c.replace(0)));
+    for c in [&ITER_SCRIPTS, &SECOND_SHORTER, &FIRST_SHORTER, &DELAY_GT_LEN, &DELAY_EQ_LEN, &ZERO_LEN, &PARTIAL_FRAME] {
+        c.with(|c| c.set(0));
+    }
+}
+
 fn main() {
     let cli = Cli::parse();
     let t0 = Instant::now();
@@ -624,21 +632,24 @@ fn main() {
         jobs.retain(|(n, _)| n.max_bound(LEAF_AMP) < 0.95);
         for (i, (node, lens)) in jobs.iter().enumerate() {
             let thin = cli.t(6usize, 3usize);
-            if (i / thin) as u64 % cli.nshards == cli.shard && i % thin == 0 {
+            let always = false && node.encode().contains("delay");
+            if (always && i as u64 % cli.nshards == cli.shard) || (!always && (i / thin) as u64 % cli.nshards == cli.shard && i % thin == 0) {
+                note_obligations(node, lens);
                 run_any(&mut rep, FNAMES[i % FNAMES.len()], node, lens, [1u64, 5, 9][i % 3]);
                 rep.hit("trees_run_as_a_32_bit_build");
-                flush(&mut rep);
+                flush_lean(&mut rep);
             }
         }
         for i in 0..cli.t(6u64, 20u64) {
             let mut rng = Rng::derive(cli.seed, &[3205, cli.shard, i]);
             let (node, nl) = random_bounded_tree(&mut rng, 3, 4);
             let lens: Vec<Option<u64>> = (0..nl).map(|_| if rng.chance(1, 5) { None } else { Some(rng.below(10)) }).collect();
+            note_obligations(&node, &lens);
             run_any(&mut rep, FNAMES[rng.usize_below(FNAMES.len())], &node, &lens, 1 + rng.below(8));
             rep.hit("trees_run_as_a_32_bit_build");
-            flush(&mut rep);
+            flush_lean(&mut rep);
         }
-        flush(&mut rep);
+        flush_lean(&mut rep);
         finish(&cli, rep, t0);
     }
     for o in ["iterator_conformance_scripts", "two_source_second_shorter", "two_source_first_shorter", "delay_longer_than_source", "delay_equal_to_source_length", "zero_length_source", "trailing_partial_frame"] {
